@@ -19,6 +19,22 @@ CLAIMED["C05"] = ("typestate abstract interpretation of state-store versions and
  "Sound static decision of the inductive roll-back invariant: failure and predicates leave the store at its entry version, code blocks are bracketed, success paths never reinstate an older snapshot, clone tokens are linear, globalStore is never touched by the runtime, the left-recursion leader discards its final attempt. Holds for every grammar and input by induction over expression trees.",
  "Not decided: user Clone() correctness; behaviour under Memoize(true). Trusted: sync.Pool contract, go/cfg, go/types.",
  "DESIGN.md §3 C05")
+CLAIMED["C02"] = ("typestate abstract interpretation of context assignments and label-scope depth; type-resolved who-may-write scan; builder/runtime scope agreement",
+ "Sound static decision of: action context taken from the entry savepoint on the ok path only; predicate/state-block context assigned before the call (finding F8); positions a pure function of (input, offset) by ownership of position/savepoint/input stores and the shape of read(); label scopes agree between compiler and interpreter; a code predicate's boolean alone decides.",
+ "Not decided: that col counts runes for every byte string (utf8.DecodeRune semantics), label values across -optimize-grammar inlining. Listed exception RecoveryExpr scope depth confirmed by reading.",
+ "DESIGN.md §3 C02")
+CLAIMED["C11"] = ("error-discipline rules (no error dropped, typed entries, list returned) via abstract interpretation of code-block call sites plus AST/who-may-write rules",
+ "Sound static decision of the error contract's structural clauses: every code-block error is recorded under exactly err != nil at the right position and parsing continues; only *parserError enters the list with the documented prefix; every return of parse yields the de-duplicated list; dedupe keeps first occurrences in order; the recover handler is wired as documented and defaults to on.",
+ "Not decided: which errors survive a particular backtrack (behavioural).",
+ "DESIGN.md §3 C11")
+CLAIMED["C12"] = ("typestate abstract interpretation of terminal matchers and inversion parity; AST/ordering rules on failAt and message synthesis",
+ "Sound static decision of: every terminal outcome reported exactly once with correct polarity, start position and own label; inversion scoped to !; message built from de-duplicated, sorted expected list with EOF last at maxFailPos; failAt keeps the farthest offset.",
+ "Not decided: the global induction that the reported offset is the maximum over a whole backtracking run (follows from C12-a/d but is not mechanised); memo-hit paths.",
+ "DESIGN.md §3 C12")
+CLAIMED["C14"] = ("typestate abstract interpretation of the handler stack (push/pop pairing, scan order, first success); builder field pairing; traversal exhaustiveness",
+ "Sound static decision of: handlers in force exactly during the guarded evaluation; throw scans innermost-first, returns the first succeeding handler, fails after the scan; builder emits the right fields; generator traversals handle both kinds (F1, repaired).",
+ "Not decided: dynamic nesting semantics beyond these shapes.",
+ "DESIGN.md §3 C14")
 NA_REASON = {}
 DEFAULT_NA = "no check registered in this revision of the framework (see DESIGN.md for the planned static rules)"
 
